@@ -1,6 +1,8 @@
 //! unit: u13
 //! properties: C13
 //! note: node_announcement address descriptors: SocketAddress::len() (the value written into / checked against the addresses length field) equals the number of bytes SocketAddress::write() emits after the type byte, for every address including 255-byte hostnames
+//! trusted: R15 (deep slices): QueryShortChannelIds / ReplyChannelRange read and write: the validity test and count derived from encoding_len, and the encoding_len expression written, verbatim (Self is a skeleton holding the id list)
+//! assume: a message we build holds at most 8191 short channel ids (`len() as u16 * 8 + 1` is computed in u16; a peer message is at most 65535 bytes)
 //! trusted: R16: `match self { &Variant { ref x, .. } => ..}` on a reference scrutinee is written with default binding modes (`Variant { x, .. }`): same bindings by reference (Verus has no `&` patterns); the mutants are written in the rewritten form
 //! trusted: R5: the writer generic W is instantiated with a byte-counting writer (CountWriter: ghost number of bytes written so far); the Writeable impls of u8, u16, [u8; N] and Hostname are external_body stubs that add their wire size (1, 2, N, 1 + hostname length: impl_writeable_primitive!, impl_array!, `impl Writeable for Hostname` in util/ser.rs) and may fail; Hostname is a skeleton {bytes} with external_body len() (u8: the type invariant of Hostname is length <= 255); io::Error opaque
 //! trusted: assume_specification for core::cmp::max / core::cmp::min (std definitions): present in every unit so that a change that introduces them is verified instead of being rejected by the tool
@@ -153,5 +155,51 @@ pub proof fn lemma_descriptors_push(s: Seq<SocketAddress>, a: SocketAddress)
 //@with
     if addr_len < addr_readpos + addr.len() {
 //@end
+// ---- gossip queries: the encoded list of short channel ids is as long as its length field says, on both sides ----
+pub struct ScidList { pub short_channel_ids: Vec<u64> }
+impl ScidList {
+//@extract lightning/src/ln/msgs.rs :: impl LengthReadable for QueryShortChannelIds :: fn read_from_fixed_length_buffer
+//@slice R15
+    if $c:cond { return Err(DecodeError::InvalidValue); } let short_channel_id_count: u16 = $n:seq;
+//@with
+    fn query_short_channel_ids_count_from_encoding_len(encoding_len: u16) -> Result<u16, DecodeError> { if $c { return Err(DecodeError::InvalidValue); } let short_channel_id_count: u16 = $n; Ok(short_channel_id_count) }
+//@ret r
+//@ensures P C13 the-number-of-short-channel-ids-read-from-a-query-short-channel-ids-is-exactly-what-its-encoding-length-announces-and-a-length-that-is-not-one-plus-a-multiple-of-eight-is-refused
+    r is Ok <==> (encoding_len >= 1 && (encoding_len - 1) % 8 == 0),
+    r matches Ok(n) ==> 1 + 8 * n == encoding_len,
+//@end
+//@extract lightning/src/ln/msgs.rs :: impl Writeable for QueryShortChannelIds :: fn write
+//@slice R15
+    let encoding_len: u16 = $e:seq; self.chain_hash.write(w)?;
+//@with
+    fn query_short_channel_ids_encoding_len_written(&self) -> u16 { let encoding_len: u16 = $e; encoding_len }
+//@ret r
+//@requires
+    self.short_channel_ids@.len() <= 8191,
+//@ensures P C13 the-encoding-length-written-for-a-query-short-channel-ids-is-one-plus-eight-bytes-per-short-channel-id-the-length-its-reader-accepts
+    r == 1 + 8 * self.short_channel_ids@.len(),
+//@end
+//@extract lightning/src/ln/msgs.rs :: impl LengthReadable for ReplyChannelRange :: fn read_from_fixed_length_buffer
+//@slice R15
+    if $c:cond { return Err(DecodeError::InvalidValue); } let short_channel_id_count: u16 = $n:seq;
+//@with
+    fn reply_channel_range_count_from_encoding_len(encoding_len: u16) -> Result<u16, DecodeError> { if $c { return Err(DecodeError::InvalidValue); } let short_channel_id_count: u16 = $n; Ok(short_channel_id_count) }
+//@ret r
+//@ensures P C13 the-number-of-short-channel-ids-read-from-a-reply-channel-range-is-exactly-what-its-encoding-length-announces-and-a-length-that-is-not-one-plus-a-multiple-of-eight-is-refused
+    r is Ok <==> (encoding_len >= 1 && (encoding_len - 1) % 8 == 0),
+    r matches Ok(n) ==> 1 + 8 * n == encoding_len,
+//@end
+//@extract lightning/src/ln/msgs.rs :: impl Writeable for ReplyChannelRange :: fn write
+//@slice R15
+    let encoding_len: u16 = $e:seq; self.chain_hash.write(w)?;
+//@with
+    fn reply_channel_range_encoding_len_written(&self) -> u16 { let encoding_len: u16 = $e; encoding_len }
+//@ret r
+//@requires
+    self.short_channel_ids@.len() <= 8191,
+//@ensures P C13 the-encoding-length-written-for-a-reply-channel-range-is-one-plus-eight-bytes-per-short-channel-id-the-length-its-reader-accepts
+    r == 1 + 8 * self.short_channel_ids@.len(),
+//@end
+}
 }
 fn main() {}
